@@ -94,3 +94,18 @@ Fixpoint to_deriv (n : nat) (t : tree) : tree :=
       | _ => t
       end
   end.
+
+(* the program of the non-vacuity example of C08_complete (Properties/C08.v) *)
+Definition c08_example_ts : list token :=
+  let sp := mkTok CSpace 0 " "%bs " "%bs in
+  let nl := mkTok CNewline 0 [10] [10] in
+  let nm c := mkTok CName 0 c c in
+  let sy c := mkTok CSymbol 0 c c in
+  let kw c := mkTok CKeyword 0 c c in
+  let nu c := mkTok CNumber 0 c c in
+  [kw "local"%bs; sp; nm "t"%bs; sy "="%bs; sy "{"%bs; nu "1"%bs; sy ","%bs; nm "x"%bs; sy "="%bs; nu "2"%bs; sy "}"%bs; nl;
+   kw "if"%bs; sp; sy "("%bs; nm "t"%bs; sy "."%bs; nm "x"%bs; sy ")"%bs; sp; nm "f"%bs; sy "("%bs; nm "t"%bs; sy ")"%bs; sp;
+   kw "else"%bs; sp; nm "y"%bs; sy "="%bs; sy "-"%bs; nm "t"%bs; sy "["%bs; nu "1"%bs; sy "]"%bs; sy "+"%bs; nu "2"%bs; nl;
+   kw "for"%bs; sp; nm "i"%bs; sy "="%bs; nu "1"%bs; sy ","%bs; nu "3"%bs; sp; kw "do"%bs; sp; nm "t"%bs; sy "."%bs; nm "x"%bs;
+   sy "+="%bs; nm "i"%bs; sp; kw "end"%bs; nl; kw "return"%bs; sp; nm "t"%bs; nl].
+
